@@ -1,10 +1,11 @@
 SPECIFICATION FairSpec
 CONSTANTS
-  CapMax = 12
+  CapMax = 24
   Profiles <- ProfSmall
   MaxSteps = 3
   PairChecked = TRUE
   IslandClears = TRUE
+  DualChecked = TRUE
 INVARIANT TypeOK
 INVARIANT Apart
 INVARIANT NoDerefNull
